@@ -11,7 +11,7 @@
     Also here: the predicate on histories the property states ([history_ok_b]) and
     the lock-discipline checker with its small semantics of RWMutex sections.
     No proofs in this file. *)
-From Verif Require Import Base.Prelude Gen.Constants Gen.LockFacts.
+From Verif Require Import Base.Prelude Gen.Constants.
 From Coq Require String.
 Open Scope N_scope.
 
